@@ -125,7 +125,7 @@ def run(res: Results, idx: Index, tier: str) -> None:
             if want is None:
                 res.unresolved("R-C04b", f"{LD}:{cur.lineno}", key, f"no reference operator for dimension operation '{opname}'", conv.qualname)
             elif opname == "floordiv" and op == "Div" and in_order and len(emitted) == 1:
-                res.violation("R-C04b", f"{LD}:{emitted[0].lineno}", key, "dimension operation 'floordiv' is lowered to a bare integer Div: ONNX Div truncates toward zero while JAX's `//` floors, so a dimension expression with a negative numerator ((B - 5) // 2 at B = 2 or 4) evaluates one too high; a floor correction (q - (r != 0 and sign(r) != sign(b))) is missing", conv.qualname)
+                res.violation("R-C04b", f"{LD}:{emitted[0].lineno}", key + "::no-floor-correction", "dimension operation 'floordiv' is lowered to a bare integer Div: ONNX Div truncates toward zero while JAX's `//` floors, so a dimension expression with a negative numerator ((B - 5) // 2 at B = 2 or 4) evaluates one too high; a floor correction (q - (r != 0 and sign(r) != sign(b))) is missing", conv.qualname)
             elif op == want and in_order:
                 res.ok("R-C04b", f"{LD}:{emitted[0].lineno}", key, f"{opname} -> {op}, operands in order", conv.qualname)
             else:
